@@ -205,6 +205,34 @@ def init (c : Cfg) : S :=
 def runFrom (c : Cfg) (s : S) (ops : List Op) : S := ops.foldl (step c) s
 def run (c : Cfg) (ops : List Op) : S := runFrom c (init c) ops
 
+/-! ### the dispatcher level (supervisor/dispatchers.py POutputDispatcher.removelogs / reopenlogs)
+
+  A dispatcher has a normal log (the file handler modelled above) and, with capture enabled, a
+  capture log (a BoundIO in memory, not a file); `childlog` is the normal log outside a capture
+  section and the capture log inside one.  Which loggers removelogs()/reopenlogs() walk and which
+  handler methods they call are the regenerated tables `removelogs_targets/_calls`,
+  `reopenlogs_targets/_calls`. -/
+
+/-- does a walk over the handlers of `targets` reach the normal log's file handler? -/
+def reachesNormalLog (targets : List String) (capturemode : Bool) : Bool :=
+  targets.contains "self.normallog" || (targets.contains "self.childlog" && !capturemode)
+
+/-- `handler.<m>()` for each method name, on the normal log's handler -/
+def handlerCalls (c : Cfg) : List String → S → S
+  | [], s => s
+  | m :: r, s =>
+    if m = "remove" then handlerCalls c r (fhRemove s)
+    else if m = "reopen" then handlerCalls c r (fhReopen c s)
+    else okThen (raise .unmodelled) s
+
+/-- `POutputDispatcher.removelogs()` (clearProcessLogs) as seen by the normal log -/
+def dispRemovelogs (c : Cfg) (capturemode : Bool) (s : S) : S :=
+  if reachesNormalLog removelogs_targets capturemode then handlerCalls c removelogs_calls s else s
+
+/-- `POutputDispatcher.reopenlogs()` (SIGUSR2) as seen by the normal log -/
+def dispReopenlogs (c : Cfg) (capturemode : Bool) (s : S) : S :=
+  if reachesNormalLog reopenlogs_targets capturemode then handlerCalls c reopenlogs_calls s else s
+
 /-- everything handed to `emit`, in order -/
 def written : List Op → Bytes
   | [] => []
@@ -234,12 +262,24 @@ def parseOp (l : String) : Option Op :=
     | _, _ => none
   | _ => none
 
+/-- dispatcher-level lines: `dclear <capturemode>` / `dreopen <capturemode>` -/
+def parseDisp (c : Cfg) (l : String) : Option (S → S) :=
+  match words l with
+  | ["dclear", "0"] => some (dispRemovelogs c false)
+  | ["dclear", "1"] => some (dispRemovelogs c true)
+  | ["dreopen", "0"] => some (dispReopenlogs c false)
+  | ["dreopen", "1"] => some (dispReopenlogs c true)
+  | _ => none
+
 def runOps (c : Cfg) (top : Nat) : S → List String → List String
   | _, [] => []
   | s, l :: r =>
-    match parseOp l with
-    | none => "bad-op" :: runOps c top s r
-    | some op => showState top (step c s op) :: runOps c top (step c s op) r
+    match parseDisp c l with
+    | some f => showState top (f s) :: runOps c top (f s) r
+    | none =>
+      match parseOp l with
+      | none => "bad-op" :: runOps c top s r
+      | some op => showState top (step c s op) :: runOps c top (step c s op) r
 
 def runCase (cfg : List String) (ops : List String) : List String :=
   match kvBool cfg "rotating", kvInt cfg "maxbytes", kvInt cfg "backups", kvNat cfg "show" with
